@@ -270,3 +270,33 @@ package server
 //@   frame-by-effects
 //@   requires s != nil && msg != nil && len(msg.Args) > 0 && (msg._command == "" || msg._command == lower(msg.Args[0]))
 //@   modifies perCall, ndispatched, lastDispatched, steps
+
+// ---- expiration sweeper (C14) -------------------------------------------------------
+// never early: every DEL the sweeper generates is for an object whose deadline is not after `now`;
+// each generated DEL is executed and logged under the exclusive lock (so followers, restarts and fences see it).
+//@ ghost macro expiredMsg(m, nano) = m != nil && allocated(m) && exint(o, objExpires(o) <= nano && len(m.Args) == 3 && m.Args[0] == "del" && m.Args[2] == objID(o))
+//@ func Server.backgroundExpireObjects
+//@   lockcheck
+//@   internal-caller
+//@   frame-by-effects
+//@   uses btree.map.vals
+//@   requires s != nil && s.cols != nil && s.config != nil && lock == 2 && !pending
+//@   requires [cols-wellformed] forall(k, 0, len(mapVals(*s.cols)), astype(mapVals(*s.cols)[k], "collection.Collection").expires != nil)
+//@   modifies pending, steps, ndispatched, lastDispatched, perCall
+//@   ensures [lock-balance] lock == 2
+//@   ensures [logged] !pending
+//@   loop 1 invariant lock == 2 && !pending
+//@   loop 1 invariant [never-early] forall(k, 0, len(msgs), expiredMsg(msgs[k], nano))
+//@   loop 2 invariant lock == 2 && !pending
+//@   loop 2 invariant [never-early] forall(k, 0, len(msgs), expiredMsg(msgs[k], nano))
+//@   loop 3 invariant lock == 2 && !pending
+//@ func Server.backgroundExpireHooks
+//@   lockcheck
+//@   internal-caller
+//@   frame-by-effects
+//@   requires s != nil && s.config != nil && lock == 2 && !pending
+//@   modifies pending, steps, ndispatched, lastDispatched, perCall
+//@   ensures [lock-balance] lock == 2
+//@   ensures [logged] !pending
+//@   loop 1 invariant lock == 2 && !pending
+//@   loop 2 invariant lock == 2 && !pending
